@@ -17,6 +17,9 @@ BUDGET_S = {'quick': 160, 'thorough': 1500}
 
 BODIES = [b'', b'hello\r\n', b'MAIL FROM:<evil@x>\r\nRCPT TO:<victim@y>\r\nQUIT\r\n', b'..\r\n. \r\n.x\r\n', b'a\nb\n', b'no newline at end',
           b'\r\n\r\n', b'x' * 30 + b'\r\n', b'QUIT\r\n' * 6, b'.\rnot-eod\r\n', b'\xff\xfe\x00\r\n', b'DATA\r\n.\r\nRSET\r\n']
+# a line as long as a recv() piece (4096) or two, followed by dot-leading text: the burst delivery cuts right behind the long run
+LONG_BODIES = [b'a' * 4096 + b'.tail\r\n', b'a' * 4096 + b'.\r\nMAIL FROM:<evil@x>\r\nRCPT TO:<v@y>\r\n', b'a' * 8192 + b'..\r\nx\r\n',
+               b'a' * 4095 + b'\r\n.x\r\n', b'a' * 4090 + b'.\r\nNOOP\r\n']
 CONFIGS = [{'starttls': False, 'auth': False, 'maxsize': None}, {'starttls': False, 'auth': False, 'maxsize': 40},
            {'starttls': False, 'auth': False, 'maxsize': 12}]
 
@@ -35,7 +38,7 @@ def gen_stream(rng):
             t.append(rng.choice([b'RCPT TO:<r@y>\r\n', b'RCPT TO:<r2@y>\r\n', b'RCPT TO:<"a>"@y>\r\n']))
         if rng.random() < 0.85:
             t.append(b'DATA\r\n')
-            body = rng.choice(BODIES)
+            body = rng.choice(LONG_BODIES) if rng.random() < 0.04 else rng.choice(BODIES)
             if rng.random() < 0.8:
                 t.append(stuff(body))
             else:
@@ -70,6 +73,9 @@ def segmentations(stream, cuts):
     lines = stream.split(b'\n')
     segs = [l + b'\n' for l in lines[:-1]] + ([lines[-1]] if lines[-1] else [])
     yield 'linewise', b'', segs
+    dots = [i for i in range(1, len(stream)) if stream[i] == 46 and stream[i - 1] not in (10, 13)]
+    if dots and len(stream) > 2000:
+        yield 'before-inner-dots', b'', cut(stream, dots)      # a piece that begins with a dot in the middle of a (long) line
     for k, (b0, cs) in enumerate(cuts):
         b0 = min(b0, len(stream))
         rest = stream[b0:]
